@@ -235,9 +235,13 @@ def check_eko(rep):
     ok = ok and len(ret) == 1 and ast.unparse(ret[0].value).replace(" ", "") in ("int(2+ref_idx)", "int(ref_idx+2)")
     walls = [n for n in ast.walk(init.node) if isinstance(n, ast.Assign) and ast.unparse(n.targets[0]) == "self.walls"]
     ok2 = len(walls) == 1 and ast.unparse(walls[0].value).replace(" ", "") == "[0]+matching_scales+[np.inf]"
-    rep.check(ok and ok2, "C06.eko", str(m.path), "eko.matchings::nf_default",
-              "nf = 2 + digitize(Q2, [0]+scales+[inf]) with right=False: a quark is active iff its matching scale^2 <= Q2",
-              "installed eko's nf_default/Atlas no longer has the audited shape (boundary convention not re-established)")
+    if ok and ok2:
+        rep.ok("C06.eko", str(m.path), "eko.matchings::nf_default",
+               "nf = 2 + digitize(Q2, [0]+scales+[inf]) with right=False: a quark is active iff its matching scale^2 <= Q2")
+    else:
+        # a different eko may well keep the convention: the audit is then simply not re-established
+        rep.undecided("C06.eko", str(m.path), "eko.matchings::nf_default",
+                      "installed eko's nf_default/Atlas no longer has the audited shape: boundary convention (<=) not re-established by this check")
 
 
 def run(rep, proj, tier):
